@@ -169,7 +169,8 @@ def check_sel(case, ctx):
 def helper_case(draw):
     fg = draw(gen.freq_grid(4, 10))
     dg = draw(gen.dir_grid(4, 12))
-    return dict(fg=fg, dg=dg, which=draw(st.sampled_from(["construct_partition", "shapes", "read_ww3", "read_ncswan", "read_wwm", "read_era5", "read_ndbc", "read_wavespectra", "partition_and_reconstruct", "scaled"])),
+    return dict(fg=fg, dg=dg, which=draw(st.sampled_from(["construct_partition", "shapes", "read_ww3", "read_ncswan", "read_wwm", "read_era5", "read_ndbc", "read_wavespectra", "partition_and_reconstruct", "scaled",
+                                                                     "acc_stats_args", "acc_bbox_args", "acc_interp_args", "acc_plot_kwargs", "acc_plot_kwargs", "acc_split_args"])),
                 specs=[draw(gen.spectrum(kinds=("multinoisy", "sparse"))) for _ in range(2)], nt=draw(st.integers(1, 3)), ns=draw(st.sampled_from([2, 4])),
                 winds=[dict(wspd=draw(st.floats(1, 30)), wdir=draw(st.floats(0, 360)), dpt=draw(st.sampled_from([5.0, 50.0])))], latlon_time=draw(st.booleans()), as_list=draw(st.booleans()))
 
@@ -193,6 +194,48 @@ def check_helpers(case, ctx):
         args = dict(freq_kwargs=fk, dir_kwargs=dk, defaults=construct.construct_partition.__defaults__)
         call = (lambda: construct.construct_partition("jonswap", "cartwright", freq_kwargs=fk, dir_kwargs=dk)) if which == "construct_partition" else (
             lambda: (F.jonswap(**fk), F.tma(dep=20.0, **fk), F.gaussian(freq=fk["freq"], hs=hs, fp=fk["fp"], gw=0.02), D.cartwright(**dk), D.asymmetric(dir=dk["dir"], freq=fk["freq"], dm=dm, dpm=dm, dspr=30.0, dpspr=20.0, fm=0.1, fp=0.08)))
+    elif which.startswith("acc_"):
+        # accessor calls whose arguments are caller-owned mutable objects (lists, dictionaries, arrays)
+        da = gen.build_dataarray(case["fg"], case["dg"], case["specs"], [["time", 2]], dtype="float64")
+        via = da.to_dataset(name="efth") if case["latlon_time"] else da
+        if which == "acc_stats_args":
+            st_ = ["hs", "tp", "dm"] if case["as_list"] else {"hs": {}, "tp": {"smooth": False}, "momf": {"mom": 1}}
+            nm = ["Hs", "Tp", "Third"]
+            args = dict(stats=st_, names=nm)
+            call = lambda: via.spec.stats(st_, names=nm, fmin=float(f[0]), fmax=float(f[-1]))  # noqa: E731
+        elif which == "acc_bbox_args":
+            bb = [dict(fmin=float(f[0]), fmax=float(f[1]), dmin=0.0, dmax=180.0), dict(fmin=float(f[2]), fmax=float(f[-1]))]
+            args = dict(bboxes=bb)
+            call = lambda: da.spec.partition.bbox(bb)  # noqa: E731
+        elif which == "acc_interp_args":
+            tf = list(0.5 * (f[:-1] + f[1:])) if case["as_list"] else 0.5 * (f[:-1] + f[1:])
+            td = np.array(sorted(d % 360.0))
+            other = xr.DataArray(np.ones((2, 2)), coords=dict(freq=[float(f[0]), float(f[1])], dir=[0.0, 90.0]), dims=("freq", "dir"), name="efth")
+            args = dict(freq=tf, dir=td, other=snap.snap(other))
+            call = lambda: (via.spec.interp(freq=tf, dir=td), da.spec.interp_like(other), da.spec.rotate(15.0))  # noqa: E731
+        elif which == "acc_split_args":
+            lim = dict(fmin=float(f[1]), fmax=float(f[-2]), dmin=10.0, dmax=200.0)
+            args = dict(lim=lim)
+            call = lambda: (da.spec.split(**lim), da.spec.stats(["hs"], **lim))  # noqa: E731
+        else:
+            import matplotlib
+
+            matplotlib.use("Agg")
+            import matplotlib.pyplot as plt
+
+            kws = dict(facecolor="white") if case["as_list"] else {}
+            cb = dict(shrink=0.8)
+            lev = [0.1, 0.2, 0.5]
+            kind = ["contourf", "contour", "pcolormesh"][case["nt"] % 3]
+            args = dict(subplot_kws=kws, cbar_kwargs=cb, levels=lev)
+
+            def call():
+                try:
+                    one = via.isel(time=0)
+                    extra = dict(cbar_kwargs=cb) if kind != "contour" else {}
+                    return one.spec.plot(kind=kind, subplot_kws=kws, levels=lev if kind != "pcolormesh" else None, **extra)
+                finally:
+                    plt.close("all")
     else:
         T = native.truth(case["fg"], case["dg"], case["specs"], case["nt"], case["ns"], case["winds"], gen)
         if which == "read_ww3":
@@ -231,6 +274,8 @@ def check_helpers(case, ctx):
                 x.compute()
     except Exception as e:  # noqa: BLE001
         verdict = type(e).__name__
+    if which == "acc_interp_args":
+        args["other"] = snap.snap(other)
     d_ = snap.diff(before, snap.freeze(args))
     if d_:
         raise Violation("input-modified", "%s (%s): %s" % (which, verdict, d_))
